@@ -450,3 +450,34 @@ def const_strings(body, sl, op):
         if o.cstr() is not None and "promoted[" not in o.cstr(): out.append(o.cstr())
         else: out += [x for x in promoted_consts(body, o) if isinstance(x, str)]
     return out
+
+
+def question_mark_edges(body, du, call):
+    """(Continue edge, Break edge) of the `?` applied to the result of `call` itself (directly or after map_err/map): the
+    Try::branch whose operand is that result and nothing else. Returns (None, None) when there is none."""
+    def comes_from(local):
+        l = local
+        for _ in range(12):
+            ds = du.value_defs(l)
+            if len(ds) != 1: return False
+            k, d = ds[0]
+            if k == "call":
+                if d is call: return True
+                if not d.callee.indirect and d.callee.name in ("map_err", "map", "or_else", "inspect_err") and d.args and d.args[0].place is not None and not d.args[0].place.p:
+                    l = d.args[0].place.l; continue
+                return False
+            if k == "stmt" and d.kind == "assign" and d.rv in ("use", "cast") and d.ops and d.ops[0].place is not None and not d.ops[0].place.p and not d.lhs.p:
+                l = d.ops[0].place.l; continue
+            return False
+        return False
+    best = None
+    for t in body.calls("=branch"):
+        if t.target is None or not t.args or t.args[0].place is None or t.args[0].place.p: continue
+        if not comes_from(t.args[0].place.l): continue
+        sw = body.blocks[t.target].term
+        if sw.kind != "switch": continue
+        if best is None or t.bb < best[0].bb: best = (t, sw)
+    if best is None: return None, None
+    sw = best[1]
+    e0 = [(sw.bb, v, b) for v, b in sw.targets if v == 0]; e1 = [(sw.bb, v, b) for v, b in sw.targets if v == 1]
+    return (e0[0] if e0 else (sw.bb, "otherwise", sw.otherwise)), (e1[0] if e1 else (sw.bb, "otherwise", sw.otherwise))
